@@ -5,7 +5,7 @@
            (events (ev ID log|span|metric xMDL PAD SIZE)…)
            (script (logs R…) (traces R…) (metrics R…)) (end flush|drop))
       R ::= ack | ackbody | (status N) | (grpc N) | (grpch N) | stall | stallh | rsth | drph | rstb | rsta
-      PAD ::= N | (rnd N)
+      PAD ::= N | (rnd N) | (uni N)
       rsth (gRPC only): response HEADERS (200), then RST_STREAM before any trailers; drph: response HEADERS (200;
       HTTP: content-length 64 and 10 bytes of body), then the connection is dropped
       → `logs=[E…] traces=[E…] metrics=[E…] flush=true|dropped`   E ::= <ids joined by , | ?>:<resp>:<n|r>
@@ -64,6 +64,7 @@ def ev? : Sexp → Option CaseEv
     let _ ← mdl.str?
     let _ ← match pad with
       | .list [.atom "rnd", n] => n.nat?
+      | .list [.atom "uni", n] => n.nat?
       | p => p.nat?
     let size ← size.nat?
     if id ≤ 0 then none else pure ⟨⟨id, size⟩, k⟩
